@@ -118,6 +118,7 @@ type Machine struct {
 	Fairness                         int       // a move enabled for more than this many steps is taken first (0 = default 10)
 	quiescent                        bool
 	SincePositive                    bool
+	MarkCUU                          bool // vMarkCursorUp: a cursor-up sequence counts as order mark 15 in text fingerprints
 	SinceFixed                       T // when set (vStartAgo) every time.Since returns exactly this duration
 	approxMemo, approxBody           map[string]T
 	approxList                       map[string][]approxRec
